@@ -27,6 +27,33 @@ global size_of usize == 8;
     f.apply_overlay('range_list.compact')
     U.add('impl RangeList {\n')
     U.add_fn(f)
+    # thin wrappers around compact(): new, from_single_range, merge_another, merge
+    g = C.fn('new', within=r'impl RangeList\b')
+    g.header("""    pub fn new(ranges: Vec<Range>) -> (r: Self)
+        requires bounded(ranges@)
+        ensures wf(r.0@), forall|s: int| covers(r.0@, s) <==> covers(ranges@, s)""")
+    U.add_fn(g)
+    g = C.fn('from_single_range', within=r'impl RangeList\b')
+    g.header("""    pub fn from_single_range(mut range: Range) -> (r: Self)
+        ensures wf(r.0@), forall|s: int| covers(r.0@, s) <==> lo(range) <= s <= hi(range)""")
+    g.body_start("        let ghost r0 = range;")
+    g.before("Self(vec![range])", "        proof { assert forall|s: int| covers(seq![range], s) <==> lo(r0) <= s <= hi(r0) by { if lo(r0) <= s <= hi(r0) { assert(lo(seq![range][0]) <= s <= hi(seq![range][0])); } } }")
+    U.add_fn(g)
+    g = C.fn('merge_another', within=r'impl RangeList\b')
+    g.header("""    pub fn merge_another(&mut self, range_list: &mut RangeList)
+        requires bounded(old(self).0@), bounded(old(range_list).0@)
+        ensures wf(final(self).0@), final(range_list).0@.len() == 0,
+            forall|s: int| covers(final(self).0@, s) <==> (covers(old(self).0@, s) || covers(old(range_list).0@, s))""")
+    g.after("self.0.append(&mut range_list.0);", """        proof {
+            let a = old(self).0@; let b = old(range_list).0@;
+            assert(self.0@ =~= a + b);
+            assert forall|s: int| covers(a + b, s) <==> (covers(a, s) || covers(b, s)) by {
+                lemma_covers_split(a + b, a.len() as int, s);
+                assert((a + b).subrange(0, a.len() as int) =~= a);
+                assert((a + b).subrange(a.len() as int, (a + b).len() as int) =~= b);
+            }
+        }""")
+    U.add_fn(g)
     U.add('}\n} // verus!\nfn main() {}\n')
     U.trust('Vec::sort_by_key(|r| r.start()) by assumed contract (permutation, sorted by .0) - shim_sort_by_start (R7)',
             'std::cmp::max (R6)', 'v@.len() <= usize::MAX for Vec (axiom_vec_len_bound)',
